@@ -22,7 +22,7 @@ on decoder-built members the hash oracle answers for.
 oracle has no row for; exponents beyond the modelled range) are outside the statements: the
 harness never compares them and counts them.
 -/
-import CtyModel.Lemmas.C17JsonCost
+import CtyModel.Lemmas.C17JsonNodes
 namespace CtyModel
 namespace C17
 open Ty JsonVal C17Json
@@ -179,6 +179,25 @@ theorem json_nodes_within_counterexample : ¬ json_nodes_within 4 := fun h =>
 example : (match unmarshalTop jenv0 (bombDoc 24) .dyn with
     | .ok v => v.v.nodes == 217 && (bombDoc 24).size == 49
     | _ => false) = true := by decide +kernel
+
+/-- PARTIAL — the strongest bound that holds: against a requested type WITHOUT the placeholder the
+decoded value has at most `1 + width ty` payload nodes per token of the document, `width ty` being
+the largest attribute count of an object type inside `ty` (the nulls supplied for unmentioned
+attributes are the only nodes no token pays for).  The multiple is fixed by the TYPE, not by the
+document; with the placeholder the type — and so the multiple — comes from the document itself. -/
+theorem json_nodes_partial (env : JEnv) (j : Json) (ty : Ty) (v : Value) (hty : Ty.wf ty = true)
+    (hd : Ty.hasDyn ty = false) (h : unmarshalTop env j ty = .ok v) :
+    v.v.nodes ≤ j.size * (1 + ty.width) :=
+  unmarshalTop_nodes env j ty v hty hd h
+
+/-- the side condition is met by ordinary types, and the bound is attained up to the constant:
+24 empty objects against a list of objects with 8 attributes — 25 tokens, 217 nodes ≤ 25·9 -/
+example : Ty.wf (.list (.object ["a", "b", "c", "d", "e", "f", "g", "h"] (List.replicate 8 .bool) (List.replicate 8 false))) = true ∧
+    Ty.hasDyn (.list (.object ["a", "b", "c", "d", "e", "f", "g", "h"] (List.replicate 8 .bool) (List.replicate 8 false))) = false ∧
+    (match unmarshalTop jenv0 (.arr (empties 24))
+        (.list (.object ["a", "b", "c", "d", "e", "f", "g", "h"] (List.replicate 8 .bool) (List.replicate 8 false))) with
+     | .ok v => v.v.nodes == 217 && (Json.arr (empties 24)).size == 25
+     | _ => false) = true := by decide +kernel
 
 end C17
 end CtyModel
